@@ -176,6 +176,31 @@ func (e *Engine) BuildVC(fn *ssa.Function) (vc *FnVC) {
 			}
 			pfr.lets = merged
 		}
+		// declared number of delete sites per local map (a property leaves the map only where the contract says)
+		for name, ds := range sp.DeleteSites {
+			n := 0
+			for _, b := range fn.Blocks {
+				for _, ins := range b.Instrs {
+					call, ok := ins.(ssa.CallInstruction)
+					if !ok {
+						continue
+					}
+					if bi, ok := call.Common().Value.(*ssa.Builtin); ok && bi.Name() == "delete" && len(call.Common().Args) == 2 {
+						if u, ok := call.Common().Args[0].(*ssa.UnOp); ok {
+							if a, ok := u.X.(*ssa.Alloc); ok && a.Comment == name {
+								n++
+							}
+						}
+					}
+				}
+			}
+			cond := fmt.Sprintf("(= %d %d)", n, ds.N)
+			tg := ds.Tags
+			if len(tg) == 0 {
+				tg = vc.tagsFor(fr, nil)
+			}
+			vc.oblige("delete-sites", fmt.Sprintf("%s:%d", name, ds.N), "true", cond, tg, "")
+		}
 		// exit cover: the normal exit must be reachable under the contracts used in the body (a contradiction between an
 		// assumed callee contract and the heap typing makes everything after that call provable)
 		vc.emit(";;EXIT-BEGIN")
